@@ -1,4 +1,4 @@
-import DoraModel.Wait.MtxInv5
+import DoraModel.Wait.MtxInv7
 /-! # C09 — the invariants hold in every reachable state; running a trace stays reachable -/
 namespace Dora.Wait.Mtx
 
@@ -55,5 +55,13 @@ theorem Reach.cinv (hr : Reach n s) (hnp : s.pcs.countP isPanicked = 0) : CInv s
   | step _ ha ih =>
     obtain ⟨pc, hpc, hst⟩ := accept_stepAt ha
     exact cinv_step (ih (nopanic_back hpc hst hnp)) hpc hst hnp
+
+theorem Reach.sinv (hr : Reach n s) : SInv s := by
+  induction hr with
+  | init =>
+    constructor
+    · intro u k f hu; simp [Mtx.init, List.getElem?_replicate] at hu
+    · intro u k hu; simp [Mtx.init, List.getElem?_replicate] at hu
+  | step _ ha ih => obtain ⟨pc, hpc, hst⟩ := accept_stepAt ha; exact sinv_step ih hpc hst
 
 end Dora.Wait.Mtx
